@@ -361,3 +361,9 @@ Proof.
   apply in_map_iff in Hin as (i & Hq' & Hi). apply in_seq in Hi.
   exists n, i. repeat split; lia.
 Qed.
+
+Lemma nth_map_seq0 : forall A (f : nat -> A) n i d, (i < n)%nat -> nth i (map f (seq 0 n)) d = f i.
+Proof.
+  intros A f n i d Hi. rewrite (nth_indep _ d (f 0%nat)) by (rewrite map_length, seq_length; lia).
+  rewrite (map_nth f (seq 0 n) 0%nat i), seq_nth by lia. reflexivity.
+Qed.
